@@ -28,6 +28,19 @@ func cmdSelftest(args []string) int {
 		return 2
 	}
 	names := cases.Names()
+	if os.Getenv("SELFTEST_DEBUG") != "" {
+		cases.Debug = true
+		for ci, n := range names {
+			if n == os.Getenv("SELFTEST_DEBUG") {
+				want := cases.Cases[n](3, 3)
+				params := map[string]int{"case": ci, "xlo": 3, "ylo": 3, "wlo": int(uint32(want)), "whi": int(want >> 32), "debug": 1}
+				ec := interp.ExploreConfig{HarnessPkg: "symgo/selftest/cases", HarnessFn: "Harness_Selftest", Workers: 1, OnceInit: defaultOnce(), PathInit: []string{"symgo/selftest/cases"}, Params: params}
+				res, err := prog.Explore(ec)
+				fmt.Println(err, res.ByStatus, res.Problems)
+			}
+		}
+		return 0
+	}
 	type job struct {
 		ci int
 		in [2]int64
